@@ -199,12 +199,14 @@ func (workerPoolSelf *DefaultWorkerPool) generateWorkerWithMaximum(maximum int) 
 			if isBusy {
 				workerPoolSelf.workerBusy--
 			}
+			// Still busy at exit: the job did not return(it panicked, or ended this goroutine with runtime.Goexit())
+			diedInJob := isBusy
 			isBelowStandBy := workerPoolSelf.workerCount < workerPoolSelf.workerSizeStandBy
 			workerPoolSelf.lock.Unlock()
 
-			// A worker killed by a job panic(or too many workers expired at once):
+			// A worker killed by its job(or too many workers expired at once):
 			// let the spawn loop check whether the queued jobs/standby need a new one
-			if (isPanicked || isBelowStandBy) && !workerPoolSelf.IsClosed() {
+			if (isPanicked || diedInJob || isBelowStandBy) && !workerPoolSelf.IsClosed() {
 				workerPoolSelf.spawnWorkerCh.Offer(1)
 			}
 		}()
